@@ -59,6 +59,18 @@ func (a *arena) slice(n, shape int, seed byte) []byte {
 			full[pre+i] = " \t-"[i%3]
 		case 5:
 			full[pre+i] = "a\u00e9\u20acb\U0001F600"[i%11]
+		case 6:
+			full[pre+i] = "0123456789abcdefABCDEF"[i%22] // reads as hexadecimal text
+		case 7:
+			full[pre+i] = "9081726354"[i%10] // reads as a decimal number
+		case 8:
+			full[pre+i] = "QUJDREVGR0hJSktMTU5PUFFSU1RVVldYWVo"[i%35] // reads as base64 / base32 text
+		case 9:
+			if i < n-1 {
+				full[pre+i] = "0123456789abcdef"[i%16] // hexadecimal text with one foreign byte at the end
+			} else {
+				full[pre+i] = 'g'
+			}
 		default:
 			full[pre+i] = seed + byte(i*3)
 		}
@@ -92,6 +104,7 @@ type c12Case struct {
 	Op    string `json:"op"`
 	Shape int    `json:"slice_shape"`
 	Lens  [5]int `json:"lens"`
+	Fill  int    `json:"fill,omitempty"` // k > 0: content class k-1 for every field (0: rotated with Sub)
 	Sub   int    `json:"variant"`
 	Then  string `json:"then,omitempty"`  // a second operation run afterwards (history of length 2)
 	Then2 string `json:"then2,omitempty"` // a third one (history of length 3, thorough tier)
@@ -114,6 +127,9 @@ func newC12Env() *c12Env {
 // every byte the caller owns.
 func (e *c12Env) run(c c12Case) (obs, bad string) {
 	a := &arena{fill: (c.Sub / 2) % 6}
+	if c.Fill > 0 {
+		a.fill = c.Fill - 1
+	}
 	sec := hopSec
 	full := shape{Text: "OCRA-1:HOTP-SHA1-6:C-QN08-PSHA1-S-T1M", Hash: c.Sub % 3, Digits: 6 + c.Sub%5, C: true, Q: true, P: true, S: true, T: true, QF: 1 + (c.Sub/3)%6, PH: 1, TS: 60}
 	in := otp.OCRAInput{Counter: a.slice(c.Lens[0], c.Shape, 1), Challenge: a.slice(c.Lens[1], c.Shape, 2), Password: a.slice(c.Lens[2], c.Shape, 3), SessionInfo: a.slice(c.Lens[3], c.Shape, 4), Timestamp: a.slice(c.Lens[4], c.Shape, 5)}
@@ -475,6 +491,21 @@ func c12(r *ev.Run) {
 							l := base
 							l[f] = ln
 							runCase(c12Case{Op: op, Shape: shapeI, Lens: l, Sub: sub + 4*(f+ln+2)})
+						}
+					}
+				}
+				// every field x the lengths at which a field's text could be taken for ANOTHER encoding of itself (hex /
+				// base64 / decimal of 8-, 20-, 32-, 64-byte values) x every content class
+				if shapeI == 1 {
+					for f := 0; f < 5; f++ {
+						for _, ln := range []int{8, 16, 20, 27, 28, 32, 40, 44, 64, 88, 128} {
+							for fill := 0; fill <= 9; fill++ {
+								for sub := 0; sub < 6; sub++ { // the four suite variants (all fields / without S,T / without C,P / short) and three hashes
+									l := base
+									l[f] = ln
+									runCase(c12Case{Op: op, Shape: shapeI, Lens: l, Sub: sub, Fill: fill + 1})
+								}
+							}
 						}
 					}
 				}
